@@ -27,9 +27,12 @@ RULE = ("E4: outline template with the 6 placeholder positions {name, step name,
         "step-table cell, tag} independently switched on (text with <a> <b> and the unknown <zz>) or off (same text "
         "with plain a b zz) = 64 masks; 0-2 examples blocks of 0-2 rows (13 shapes), column order (a,b)/(b,a), block "
         "tags {none, (e1 e.2), (dir/x e+1!) = characters the tag normalisation would strip, (e<a> e<zz>) = placeholder "
-        "text inside a BLOCK tag, which must stay as written}, block name given/empty, cell values {x, '', ue-umlaut, b (the OTHER column's name as plain "
+        "text inside a BLOCK tag, which must stay as written}, block name {plain 'Ex one'/empty, 'E-<a>', '<a><b>', 'N<row.id>-<zz>', '<b> of <examples.index>'} rendered per "
+        "row from the block's own template, the documented special placeholders <examples.name> <examples.index> "
+        "<row.index> <row.id> appended to outline name, step name and tags (slot 'special'), cell values {x, '', ue-umlaut, b (the OTHER column's name as plain "
         "text), 'x y'}, annotation schema {default, '{name} [{row.id}]', '{name}'}. Deviation = a non-'x' cell, a "
-        "(b,a) block, a tagged block, a non-default schema. quick: all 64 masks x all shapes x <=1 deviation, full mask "
+        "(b,a) block, a tagged block, a templated block name, the special slot, a non-default schema. quick: all 64 masks x all shapes x <=1 deviation (block-name / special-placeholder / "
+        "exotic-block-tag deviations on the 8 masks {none, each single position, all} only), full mask "
         "x <=2 deviations; thorough: all masks x <=2, full mask x <=3, and full mask x ALL value/order/tag/schema "
         "combinations on shapes with <=2 rows. Every outline is parsed from rendered text AND built through the model "
         "API. E2: histories over a BASE alphabet {read .scenarios, run, add_row(block, 2 value patterns, list "
@@ -49,6 +52,7 @@ RULE = ("E4: outline template with the 6 placeholder positions {name, step name,
 ASSUMPTIONS = [
     "cell values containing '<' or '>' are excluded (sequential vs simultaneous substitution differ only there)",
     "tag-position values are tag-safe after the documented Tag.make_name normalisation (blank -> '_'), which the oracle applies",
+    "special placeholders are demanded where behave documents them (outline name, step names, tags, examples name: features/scenario_outline.parametrized.feature, docs/new_and_noteworthy_v1.2.5); none is placed in doc-strings or step tables",
     "generated scenario name = annotation schema applied to the substituted outline name, row id 'B.R' (1-based block.row) and the examples name",
     "tags are compared as multisets (the statement does not order them); examples-block tags are compared by exact text",
     "placeholders whose column does not exist are 'text without placeholders': left unchanged; tags still carrying one are dropped (documented)",
@@ -67,21 +71,32 @@ DEFAULT_SCHEMA = u"{name} -- @{row.id} {examples.name}"
 # are "additionally included")
 BLOCK_TAGSETS = ((), (u"e1", u"e.2"), (u"dir/x", u"e+1!"), (u"e<a>", u"e<zz>"))
 BLOCK_NAMES = (u"Ex one", u"")
+# examples-block NAME templates (index 0 = the plain default above): column placeholders, the unknown <zz>, and the
+# special placeholders - the name is rendered per row from the block's OWN template name
+BLOCK_NAME_TEMPLATES = (None, u"E-<a>", u"<a><b>", u"N<row.id>-<zz>", u"<b> of <examples.index>")
+# documented special placeholders (docs/new_and_noteworthy_v1.2.5, features/scenario_outline.parametrized.feature):
+# substituted in the outline name, step names, tags and the examples name ("AFFECTED: scenario.name, examples.name,
+# step.name", tags: "@foo.group<examples.index>"); the text added to the template when the 'special' slot is on:
+SPECIAL_NAME = u" S<examples.index>-<row.index> @<row.id> [<examples.name>]"
+SPECIAL_STEP = u" id=<row.id> ex=<examples.name>"
+SPECIAL_TAGS = [u"g<examples.index>.<row.index>", u"n_<examples.name>", u"r<row.id>"]
 
 
 # =============================================================================
 # abstract outline -> template
 # =============================================================================
-def template(mask, cols="ab"):
+def template(mask, cols="ab", special=0):
     """the outline template as plain data: name, tags, steps [(keyword, name, text|None, table|None)]"""
     def t(bit, on, off):
         return on if mask & bit else off
     if cols == "ab":
+        sn, ss, st = (SPECIAL_NAME, SPECIAL_STEP, SPECIAL_TAGS) if special else (u"", u"", [])
         return {
-            "name": t(NAME, u"Out <a>-<b> <zz> <a>", u"Out a-b zz a"),
-            "tags": t(TAG, [u"o1", u"t_<a>", u"<b>.u", u"w_<zz>", u"<a><b>"], [u"o1", u"t_a", u"b.u"]),
+            "name": t(NAME, u"Out <a>-<b> <zz> <a>", u"Out a-b zz a") + sn,
+            "tags": t(TAG, [u"o1", u"t_<a>", u"<b>.u", u"w_<zz>", u"<a><b>"], [u"o1", u"t_a", u"b.u"]) + st,
             "steps": [
-                (u"Given", t(STEP, u"a step with <a> and <b> and <zz>", u"a step with a and b and zz"), None, None),
+                (u"Given", t(STEP, u"a step with <a> and <b> and <zz>", u"a step with a and b and zz") + ss, None,
+                 None),
                 (u"When", u"a text", t(DOC, u"doc <a>\n  <b> <zz> b\n<a><a>", u"doc a\n  b zz b\naa"), None),
                 (u"Then", u"a table", None,
                  (t(THEAD, [u"h<a>", u"<b>", u"k"], [u"ha", u"b", u"k"]),
@@ -90,8 +105,8 @@ def template(mask, cols="ab"):
             ],
         }
     return {       # E2 template: three columns, 'c' initially unknown
-        "name": u"Out <a>-<b>-<c>",
-        "tags": [u"o1", u"t_<a>", u"u_<c>"],
+        "name": u"Out <a>-<b>-<c> @<row.id> <examples.name>",
+        "tags": [u"o1", u"t_<a>", u"u_<c>", u"g<examples.index>.<row.index>"],
         "steps": [
             (u"Given", u"a step with <a> and <b> and <c>", None, None),
             (u"When", u"a text", u"doc <b> <c>\n  b c", None),
@@ -101,11 +116,12 @@ def template(mask, cols="ab"):
 
 
 def block_model(block, index):
-    """(order, tagged, rows) -> dict(name, tags, headings, rows=[cells])"""
-    order, tagged, rows = block
+    """(order, tagged, rows[, name template index]) -> dict(name, tags, headings, rows=[cells])"""
+    order, tagged, rows = block[:3]
+    bname = BLOCK_NAME_TEMPLATES[block[3]] if len(block) > 3 and block[3] else BLOCK_NAMES[index % 2]
     heads = [u"a", u"b"] if order == 0 else [u"b", u"a"]
     cells = [[va, vb] if order == 0 else [vb, va] for va, vb in rows]
-    return {"name": BLOCK_NAMES[index % 2], "tags": list(BLOCK_TAGSETS[int(tagged)]), "headings": heads,
+    return {"name": bname, "tags": list(BLOCK_TAGSETS[int(tagged)]), "headings": heads,
             "rows": cells}
 
 
@@ -170,12 +186,20 @@ def ref_expand(tmpl, blocks, schema):
     for bi, b in enumerate(blocks):
         for ri, cells in enumerate(b["rows"]):
             row = dict(zip(b["headings"], cells))
-            name = subst(tmpl["name"], row)
+            # special placeholders of THIS row; the examples name is rendered from the block's own template name
+            sp = {u"examples.index": u"%d" % (bi + 1), u"row.index": u"%d" % (ri + 1),
+                  u"row.id": u"%d.%d" % (bi + 1, ri + 1)}
+            sp.update(row)
+            ex_name = subst(b["name"], sp)
+            rowsp = dict(sp)
+            rowsp[u"examples.name"] = ex_name
+            rowsp.update(row)
+            name = subst(tmpl["name"], rowsp)
             full = (schema.replace(u"{name}", u"\0").replace(u"{row.id}", u"%d.%d" % (bi + 1, ri + 1))
-                    .replace(u"{examples.name}", b["name"]).replace(u"\0", name))
+                    .replace(u"{examples.name}", u"\1").replace(u"\0", name).replace(u"\1", ex_name))
             tags = []
             for t in tmpl["tags"]:
-                t2 = subst(t, row)
+                t2 = subst(t, rowsp)
                 if _PH.search(t2):
                     continue            # unknown placeholder: documented to be dropped
                 tags.append(tag_name(t2))
@@ -185,7 +209,7 @@ def ref_expand(tmpl, blocks, schema):
                 tb = None
                 if table is not None:
                     tb = ([subst(h, row) for h in table[0]], [[subst(c, row) for c in r] for r in table[1]])
-                steps.append((kw, subst(sname, row), None if text is None else subst(text, row), tb))
+                steps.append((kw, subst(sname, rowsp), None if text is None else subst(text, row), tb))
             out.append({"name": full, "tags": sorted(tags), "btags": list(b["tags"]), "steps": steps, "bi": bi,
                         "ri": ri})
     return out
@@ -397,9 +421,10 @@ def _merge_modes(per_mode):
 
 def check_outline(case):
     """case = (mask, blocks, schema_id); blocks = ((order, tagged, ((va, vb), ...)), ...)"""
-    mask, blocks_spec, schema_id = case
+    mask, blocks_spec, schema_id = case[:3]
+    special = case[3] if len(case) > 3 else 0
     schema = SCHEMAS[schema_id]
-    tmpl = template(mask)
+    tmpl = template(mask, special=special)
     blocks = [block_model(b, i) for i, b in enumerate(blocks_spec)]
     want = ref_expand(tmpl, blocks, schema)
     per_mode = []
@@ -467,7 +492,7 @@ def check_outline(case):
                     o1, _ = build_outline(tmpl, [single])
                     n += 1
                     one = list(o1.scenarios)
-                    if v_exp or k >= len(scenarios):
+                    if v_exp or k >= len(scenarios) or special:     # special placeholders depend on the row's position
                         break
                     if len(one) != 1:
                         v.append((dict(base, clause="row-independence", field="count"),
@@ -518,16 +543,18 @@ def slots(shape):
     for bi, nr in enumerate(shape):
         out.append((("order", bi), (1,)))
         out.append((("tagged", bi), (1, 2, 3)))
+        out.append((("bname", bi), (1, 2, 3, 4)))
         for ri in range(nr):
             for ci in range(2):
                 out.append((("cell", bi, ri, ci), VALUES[1:]))
     out.append((("schema",), (1, 2)))
+    out.append((("special",), (1,)))
     return out
 
 
 def apply_devs(shape, devs):
-    blocks = [[0, 0, [[VALUES[0], VALUES[0]] for _ in range(nr)]] for nr in shape]
-    schema = 0
+    blocks = [[0, 0, [[VALUES[0], VALUES[0]] for _ in range(nr)], 0] for nr in shape]
+    schema = special = 0
     for slot, val in devs:
         if slot[0] == "order":
             blocks[slot[1]][0] = val
@@ -535,9 +562,13 @@ def apply_devs(shape, devs):
             blocks[slot[1]][1] = val
         elif slot[0] == "cell":
             blocks[slot[1]][2][slot[2]][slot[3]] = val
+        elif slot[0] == "bname":
+            blocks[slot[1]][3] = val
+        elif slot[0] == "special":
+            special = val
         else:
             schema = val
-    return tuple((o, t, tuple(tuple(r) for r in rows)) for o, t, rows in blocks), schema
+    return tuple((o, t, tuple(tuple(r) for r in rows), bn) for o, t, rows, bn in blocks), schema, special
 
 
 def deviations(shape, k):
@@ -548,13 +579,24 @@ def deviations(shape, k):
             yield [(sl[i][0], v) for i, v in zip(combo, vals)]
 
 
-def outline_cases(masks, maxdev, mindev=0):
+FEW_MASKS = (0, NAME, STEP, DOC, THEAD, TCELL, TAG, FULL)
+
+
+def _mask_independent(devs):
+    """deviations whose effect does not depend on which template positions carry column placeholders"""
+    return any(slot[0] in ("bname", "special") or (slot[0] == "tagged" and val > 1) for slot, val in devs)
+
+
+def outline_cases(masks, maxdev, mindev=0, few_masks_for_independent=False):
     for k in range(mindev, maxdev + 1):
         for shape in SHAPES:
             for devs in deviations(shape, k):
-                blocks, schema = apply_devs(shape, devs)
-                for mask in masks:
-                    yield (mask, blocks, schema)
+                blocks, schema, special = apply_devs(shape, devs)
+                use = masks
+                if few_masks_for_independent and _mask_independent(devs):
+                    use = [m for m in masks if m in FEW_MASKS]
+                for mask in use:
+                    yield (mask, blocks, schema, special)
 
 
 def exhaustive_value_cases(mask, max_rows):
@@ -565,11 +607,12 @@ def exhaustive_value_cases(mask, max_rows):
         for vals in itertools.product(VALUES, repeat=ncell):
             for orders in itertools.product((0, 1), repeat=len(shape)):
                 for tagged in itertools.product((0, 1, 2, 3) if len(shape) == 1 else (0, 3), repeat=len(shape)):
-                    it = iter(vals)
-                    blocks = tuple((orders[bi], tagged[bi], tuple((next(it), next(it)) for _ in range(nr)))
-                                   for bi, nr in enumerate(shape))
-                    for schema in range(3):
-                        yield (mask, blocks, schema)
+                    for bn in ((0, 1) if len(shape) == 1 else (0,)):
+                        it = iter(vals)
+                        blocks = tuple((orders[bi], tagged[bi], tuple((next(it), next(it)) for _ in range(nr)), bn)
+                                       for bi, nr in enumerate(shape))
+                        for schema in range(3):
+                            yield (mask, blocks, schema, bn)
 
 
 # =============================================================================
@@ -578,7 +621,7 @@ def exhaustive_value_cases(mask, max_rows):
 STARTS = (
     (),                                                       # outline without examples
     ((0, 0, ((u"x", u"\xfc"),)),),                             # one block (a,b), one row
-    ((0, 3, ((u"x", u"b"), (u"", u"x y"))), (1, 2, ())),       # two blocks (tags e<a> e<zz> / dir/x e+1!), second (b,a), empty
+    ((0, 3, ((u"x", u"b"), (u"", u"x y")), 1), (1, 2, ())),       # two blocks (tags e<a> e<zz> / dir/x e+1!), second (b,a), empty
 )
 ROW_PATTERNS = ({u"a": u"x", u"b": u"x", u"c": u"x"}, {u"a": u"\xfc", u"b": u"b", u"c": u"x y"})
 APPEND_KINDS = (([u"a", u"b"], [[u"x", u"\xfc"]]), ([u"b", u"a"], []))
@@ -862,7 +905,7 @@ def bfs(ctx, bounds, dedup, label):
 def run(ctx):
     init_worker()
     if ctx.quick:
-        plan = [("all masks, <=1 deviation", outline_cases(range(64), 1)),
+        plan = [("all masks, <=1 deviation", outline_cases(range(64), 1, 0, True)),
                 ("full mask, 2 deviations", outline_cases((FULL,), 2, 2))]
         bounds, nd_bounds = {0: 4, 1: 3}, None
     else:
